@@ -69,10 +69,13 @@ def plan(tier, seed):
 
 
 def mandatory(tier):
-    return [f"op/{o}" for o in OPS] + ["chain", "type/ImageBatch", "type/Image", "type/FlowFields", "compared_samples", "pyramid/align_corners=None", "pyramid/align_corners=True", "pyramid/align_corners=False"]
+    return [f"op/{o}" for o in OPS] + ["chain", "type/ImageBatch", "type/Image", "type/FlowFields", "type/FlowField", "narrow/negative_dim", "compared_samples", "pyramid/align_corners=None", "pyramid/align_corners=True", "pyramid/align_corners=False", "pyramid/spacing"]
 
 
 # ---------------------------------------------------------------------------------------------
+SINGLE = ("Image", "FlowField")
+
+
 class Subject:
     r"""A batch under test together with what the oracle knows about it."""
 
@@ -101,6 +104,11 @@ def check_result(ctx, op, res, subj: Subject, new_valid, info, item_map=None, ch
     ok = ctx.true("result_is_image_type", isinstance(res, (ImageBatch, Image)), key=f"{op}/result_type", op=op, got=type(res).__name__, **info)
     if not ok:
         return 0
+    if subj.kind in ("FlowFields", "FlowField"):
+        # vectors were given in world units: the result must still say so (its values are checked as world ramps below)
+        from deepali.core.grid import Axes
+
+        ctx.true("flow_result_keeps_axes", getattr(res, "axes", lambda: None)() == Axes.WORLD, key=f"{op}/flow_axes", op=op, got=str(getattr(res, "axes", lambda: None)()), **info)
     data, grids = items_of(res)
     N = data.shape[0]
     if item_map is None:
@@ -263,6 +271,8 @@ def rand_call(rng, batch, op):
         start = int(rng.integers(0, n[sdim] - 2))
         length = int(rng.integers(2, n[sdim] - start + 1))
         tdim = batch.ndim - 1 - sdim
+        if rng.integers(0, 2):
+            tdim -= batch.ndim  # the same axis counted from the end
         return (lambda: batch.narrow(tdim, start, length)), dict(op=op, dim=tdim, start=start, length=length)
     if op == "avg_pool":
         if rng.integers(0, 2):
@@ -303,8 +313,8 @@ def make_subject(ctx, rng, kind):
     from deepali.data.image import Image, ImageBatch
 
     D = int(rng.choice([2, 3]))
-    N = 1 if kind == "Image" else int(rng.integers(1, 4))
-    C = D if kind == "FlowFields" else int(rng.integers(1, 3))
+    N = 1 if kind in SINGLE else int(rng.integers(1, 4))
+    C = D if kind in ("FlowFields", "FlowField") else int(rng.integers(1, 3))
     max_size = 28 if D == 2 else 14
     p0 = gen.rand_grid_params(rng, D, max_size=max_size, min_size=8 if D == 2 else 7, big_offset=False)
     params, grids, refs, ramps, data = [], [], [], [], []
@@ -327,6 +337,10 @@ def make_subject(ctx, rng, kind):
     t = torch.tensor(np.stack(data), dtype=torch.float32)
     if kind == "Image":
         obj = Image(t[0], grids[0])
+    elif kind == "FlowField":
+        from deepali.data.flow import FlowField
+
+        obj = FlowField(t[0], grids[0], axes=Axes.WORLD)
     elif kind == "FlowFields":
         obj = FlowFields(t, grids, axes=Axes.WORLD)
     else:
@@ -349,6 +363,7 @@ def rand_target_grid(rng, ref, D):
 
 def apply_op(ctx, rng, subj: Subject, op, desc0, noise=None):
     r"""Apply one operation to the subject; returns the new Subject (or None)."""
+    import torch
     from deepali.data.image import Image, ImageBatch
 
     batch = subj.batch
@@ -375,9 +390,18 @@ def apply_op(ctx, rng, subj: Subject, op, desc0, noise=None):
         ac = [None, True, False][int(rng.integers(0, 3))]
         desc = dict(op=op, levels=levels, sigma=sigma, align_corners=ac)
         ctx.bucket(f"pyramid/align_corners={ac}")
-        call = lambda: batch.pyramid(levels, sigma=sigma, align_corners=ac)  # noqa: E731
+        kw = {}
+        sp0 = grids[0].spacing()
+        if rng.integers(0, 2) and all(torch.allclose(g.spacing(), sp0) for g in grids):
+            # spacing of the finest level given: the pyramid is built on resampled grids (extent may grow)
+            kw["spacing"] = float(sp0.min()) * float(rng.choice([0.7, 1.0, 1.3, 1.9]))
+            desc["spacing"] = kw["spacing"]
+            ctx.bucket("pyramid/spacing")
+        call = lambda: batch.pyramid(levels, sigma=sigma, align_corners=ac, **kw)  # noqa: E731
     else:
         call, desc = rand_call(rng, batch, op)
+        if op == "narrow" and desc["dim"] < 0:
+            ctx.bucket("narrow/negative_dim")
     pub = {k: v for k, v in desc.items() if not k.startswith("_")}
     info["call"] = pub
     ctx.nontriv(desc0, pub)
@@ -395,7 +419,19 @@ def apply_op(ctx, rng, subj: Subject, op, desc0, noise=None):
         prev_grids = grids
         valid = subj.valid
         out = None
+        want_ac = grids[0].align_corners() if ac is None else ac
         for lvl in sorted(res):
+            _, lg = items_of(res[lvl])
+            if lg is not None:
+                ctx.true("pyramid_level_carries_requested_flag", all(g.align_corners() == want_ac for g in lg), key="pyramid/flag", level=lvl, got=[g.align_corners() for g in lg], **info)
+                _, lg0 = items_of(res[0])
+                if lvl > 0 and lg0 is not None and len(lg0) == len(lg):
+                    # all levels cover the same domain: corner samples (True) or extent (False) of level 0
+                    for a_, b_ in zip(lg0, lg):
+                        e0 = a_.align_corners(want_ac).cube_extent().double().numpy()
+                        e1 = b_.align_corners(want_ac).cube_extent().double().numpy()
+                        ctx.close("pyramid_levels_share_domain", e1, e0, 1e-4 * (1 + np.abs(e0)), key="pyramid/domain", level=lvl, **info)
+                        ctx.close("pyramid_levels_share_center", b_.center(), a_.center().double().numpy(), 1e-4 * (1 + np.abs(a_.center().double().numpy())) + 1e-5 * float(np.abs(e0).max()), key="pyramid/domain", level=lvl, **info)
             if lvl == 0:
                 valid = [v.after(gen.ref_of_grid(g), [0.0] * D, True) for v, g in zip(valid, prev_grids)]
             else:
@@ -473,7 +509,7 @@ def run_item(ctx, item):
         return probe_down_up(ctx)
     i = item[1]
     rng = ctx.rng()
-    kind = ["ImageBatch", "ImageBatch", "Image", "FlowFields"][i % 4]
+    kind = ["ImageBatch", "ImageBatch", "Image", "FlowFields", "FlowField"][i % 5]
     subj, desc0, refs = make_subject(ctx, rng, kind)
     ctx.bucket(f"type/{kind}")
     if any(gen.grid_nontrivial(p) for p in desc0["grids"]):
@@ -482,9 +518,9 @@ def run_item(ctx, item):
     # noise twin on the same grids for the bit-exactness of index-only operations
     data, grids = items_of(subj.batch)
     ndata = torch.tensor(rng.normal(size=tuple(data.shape)), dtype=torch.float32)
-    noise = subj.batch._make_instance(ndata[0] if kind == "Image" else ndata, grids[0] if kind == "Image" else grids)
+    noise = subj.batch._make_instance(ndata[0] if kind in SINGLE else ndata, grids[0] if kind in SINGLE else grids)
     for op in OPS:
-        if kind == "Image" and op == "sample_grids":
+        if kind in SINGLE and op == "sample_grids":
             ctx.bucket(f"op/{op}", 0)
             continue
         ctx.bucket(f"op/{op}")
